@@ -100,18 +100,50 @@ def route(ctx, facts, b):
     keep_reach = b.reachable(keep_edge)
     send_reach = b.reachable(send_edge)
     oks = malsec.ok_blocks(b)
-    # keep edge: no send reachable before its Ok; Ok carries Some(val)
-    keep_sends = [x for x, _ in sends if x in keep_reach and x not in send_reach]
-    keep_oks = [o for o in oks if o in keep_reach and o not in send_reach]
-    ctx.ob("ROUTE", "keep:no-send", not keep_sends and bool(keep_oks), "a record for this shard is kept and not sent" if not keep_sends and keep_oks else "a record destined to this shard is also sent (duplicated) or lost", site_of(b, sw))
-    for o in keep_oks:
-        carries = False
+    # what is yielded to the local output: the Option inside Ok(Some(((my_shard, <Option>), state))).  It is either built
+    # in each arm (two Ok returns) or chosen in the arms and returned once (`let kept = if .. { Some(val) } else { ..; None }`):
+    # collect its definitions with the block they sit in
+    ydefs = []      # (block, 'Some' | 'None' | '?', expression text)
+
+    def _opt(e):
+        e = flow.strip_casts(e)
+        if e[0] == "agg" and isinstance(e[1], tuple) and e[1][0] == "std::option::Option":
+            return e[1][1], str(e)
+        return None
+
+    for o in oks:
         for st in b.stmts(o):
-            if "p" in st and st["p"] == [0]:
-                ee = str(flow.expr_of(b, st["r"]["ops"][0]))
-                carries = "'Some'" in ee and "try_next" in ee
-        ctx.ob("ROUTE", "keep:yields-record", carries, "kept record is yielded to the local output" if carries else "the kept record is not passed on: it is dropped", site_of(b, o))
-    send_oks = [o for o in oks if o in send_reach and o not in keep_reach]
+            if "p" in st and st["p"] == [0] and st["r"]["k"] == "agg":
+                inner = flow.strip_casts(flow.expr_of(b, st["r"]["ops"][0], max_depth=30))
+                if not (inner[0] == "agg" and isinstance(inner[1], tuple) and inner[1][1] == "Some"):
+                    continue            # Ok(None): end of stream
+                y = None
+                try:
+                    y = flow.strip_casts(inner[2][0][2][0][2][1])        # Some(( (my_shard, Y), state ))
+                except (IndexError, TypeError):
+                    pass
+                if y is None:
+                    ydefs.append((o, "?", str(inner)[:80]))
+                elif _opt(y):
+                    ydefs.append((o, _opt(y)[0], _opt(y)[1]))
+                elif y[0] == "place" and len(y) == 2:
+                    for dbb, didx, d in b.defs().get(y[1], []):
+                        if didx != "t" and d["k"] == "agg" and d.get("adt") == "std::option::Option":
+                            ydefs.append((dbb, d.get("vn"), str(flow.expr_of(b, d["ops"][0], max_depth=30)) if d["ops"] else "None"))
+                        else:
+                            ydefs.append((dbb, "?", "assigned by " + str(d.get("k"))))
+                else:
+                    ydefs.append((o, "?", str(y)[:80]))
+    keep_defs = [(bb, vn, ex) for bb, vn, ex in ydefs if flow.dominates(dom, keep_edge, bb)]
+    send_defs = [(bb, vn, ex) for bb, vn, ex in ydefs if flow.dominates(dom, send_edge, bb)]
+    stray = [(bb, vn, ex) for bb, vn, ex in ydefs if not flow.dominates(dom, keep_edge, bb) and not flow.dominates(dom, send_edge, bb)]
+    # keep edge: no send reachable before its yield; the yield carries Some(val)
+    keep_sends = [x for x, _ in sends if x in keep_reach and x not in send_reach]
+    ctx.ob("ROUTE", "keep:no-send", not keep_sends and bool(keep_defs) and not stray, "a record for this shard is kept and not sent" if not keep_sends and keep_defs and not stray else "a record destined to this shard is also sent (duplicated) or lost", site_of(b, sw))
+    for bb_, vn, ex in keep_defs:
+        carries = vn == "Some" and "try_next" in ex
+        ctx.ob("ROUTE", "keep:yields-record", carries, "kept record is yielded to the local output" if carries else "the kept record is not passed on: it is dropped", site_of(b, bb_))
+    send_oks = [bb_ for bb_, vn, ex in send_defs]
     send_calls = [(x, t) for x, t in sends if x in send_reach and x not in keep_reach]
     ok_send = False
     if send_calls:
@@ -145,11 +177,8 @@ def route(ctx, facts, b):
         ctx.ob("ROUTE", "send:record-id-advances", ok_adv, "per-destination record id += 1 after a successful send" if ok_adv else "the per-destination record id does not advance by one per sent record", site_of(b, x))
     else:
         ctx.ob("ROUTE", "send:awaited-and-propagated", False, "no send on the other-shard edge: records for other shards are dropped", site_of(b, sw))
-    for o in send_oks:
-        for st in b.stmts(o):
-            if "p" in st and st["p"] == [0]:
-                ee = str(flow.expr_of(b, st["r"]["ops"][0]))
-                ctx.ob("ROUTE", "send:yields-none", "'None'" in ee and "try_next" not in ee.replace("TryStreamExt::try_next", "", 0)[:0] or "'None'" in ee, "a sent record is not also kept locally", site_of(b, o))
+    for bb_, vn, ex in send_defs:
+        ctx.ob("ROUTE", "send:yields-none", vn == "None", "a sent record is not also kept locally" if vn == "None" else "a record that was sent to another shard is also yielded locally (duplicated)", site_of(b, bb_))
 
 
 def _is_next_option(e):
